@@ -1394,10 +1394,11 @@ func compileTableExpr(context *funcContext, reg int, ex *ast.TableExpr, ec *expc
 	tablepc := code.LastPC()
 	regbase := reg
 
-	arraycount := 0
-	lastvararg := false
+	arraycount := 0 // positional items compiled so far (a trailing multi-valued item not counted)
+	pending := 0    // positional items held in registers and not yet stored by a SETLIST
 	for i, field := range ex.Fields {
 		islast := i == len(ex.Fields)-1
+		lastvararg := false
 		if field.Key == nil {
 			if islast && isVarArgReturnExpr(field.Value) {
 				reg += compileExpr(context, reg, field.Value, ecnone(-2))
@@ -1405,6 +1406,7 @@ func compileTableExpr(context *funcContext, reg int, ex *ast.TableExpr, ec *expc
 			} else {
 				reg += compileExpr(context, reg, field.Value, ecnone(0))
 				arraycount += 1
+				pending += 1
 			}
 		} else {
 			regorg := reg
@@ -1419,18 +1421,15 @@ func compileTableExpr(context *funcContext, reg int, ex *ast.TableExpr, ec *expc
 			code.AddABC(opcode, tablereg, b, c, sline(ex))
 			reg = regorg
 		}
-		flush := arraycount % FieldsPerFlush
-		if (arraycount != 0 && (flush == 0 || islast)) || lastvararg {
+		if pending == FieldsPerFlush || (islast && pending > 0) || lastvararg {
 			reg = regbase
-			num := flush
-			if num == 0 {
-				num = FieldsPerFlush
-			}
-			c := (arraycount-1)/FieldsPerFlush + 1
-			b := num
-			if islast && isVarArgReturnExpr(field.Value) {
+			// batch number: the positional items already stored come in full batches
+			c := (arraycount-pending)/FieldsPerFlush + 1
+			b := pending
+			if lastvararg {
 				b = 0
 			}
+			pending = 0
 			line := field.Value
 			if field.Key != nil {
 				line = field.Key
